@@ -346,7 +346,7 @@ func init() {
 		s.Register("onlyB", runHandler)
 		s.Register("relay", relayHandler)
 	}
-	families["atomic"] = func() hx.Family { return &atomic{reps: 1} }
+	families["atomic"] = func() hx.Family { return &atomic{reps: 1, native: true} }
 	// C16 (a): the same ops, every block executed 5 (thorough 25) times on two ledgers with the same history, plus blocks of
 	// real governance transactions (handlers that range over Go maps)
 	families["determ"] = func() hx.Family { return &atomic{reps: 5, twin: true, native: true} }
@@ -1235,6 +1235,9 @@ func (f *atomic) genNative(r *hx.Run, id *int) {
 		ids = append(ids, strings.Replace(s.id, " ", "/", 1))
 	}
 	n := r.Pick(6, 50)
+	if f.reps == 1 {
+		n = r.Pick(3, 40) // family atomic: the real methods are there for the atomicity oracle only
+	}
 	for c := 0; c < n; c++ {
 		*id++
 		r.Case(fmt.Sprintf("native-%d", *id))
